@@ -52,6 +52,7 @@ type c08Case struct {
 	variant c08Variant
 	mode    string
 	rep     int
+	cb      bool // an always-accepting AcceptMultiline callback is installed
 }
 
 func c08Expect(before []string, text string, records bool, errEmpty bool, size string) (after []string, either bool) {
@@ -100,6 +101,8 @@ func c08Job(id int, cs c08Case) harness.Job {
 	}
 	if cs.variant.multi {
 		cfg.Multiline = "first"
+	} else if cs.cb {
+		cfg.Multiline = "always"
 	}
 	var ans []harness.Answer
 	if cs.text != "" {
@@ -128,7 +131,7 @@ func c08Verdict(cs c08Case, t *harness.Trace) (fp, what string, recorded bool) {
 	for i := range cs.kinds {
 		before[i] = append([]string{}, cs.priors[i]...)
 	}
-	desc := fmt.Sprintf("text=%q priors=%v kinds=%v history-size=%q variant=%s mode=%s", cs.text, cs.priors, cs.kinds, cs.size, cs.variant.name, cs.mode)
+	desc := fmt.Sprintf("text=%q priors=%v kinds=%v history-size=%q variant=%s mode=%s accept-multiline-callback=%v", cs.text, cs.priors, cs.kinds, cs.size, cs.variant.name, cs.mode, cs.cb)
 	for ci := range t.Calls {
 		call := &t.Calls[ci]
 		if call.Outcome != "returned" {
@@ -187,9 +190,10 @@ func init() {
 			Size        string
 			Variant     string
 			Mode        string
+			CB          bool
 		}
 		jsonUnmarshal(w.Input, &in)
-		cs = c08Case{text: in.Text, priors: in.Priors, kinds: in.Kinds, size: in.Size, mode: in.Mode}
+		cs = c08Case{text: in.Text, priors: in.Priors, kinds: in.Kinds, size: in.Size, mode: in.Mode, cb: in.CB}
 		for _, v := range c08Variants {
 			if v.name == in.Variant {
 				cs.variant = v
@@ -216,7 +220,7 @@ func runC08(c *Ctx) {
 	if !c.Quick() {
 		reps = 16
 	}
-	c.Rule = fmt.Sprintf("full product: %d texts x %d prior contents x %d source configurations x %d history-size settings x %d accept variants x {emacs, vi-insert}; multi-source cases repeated %d times (map iteration order); reference model per source. non-trivial = distinct cases in which the line was actually recorded in at least one source", len(texts), len(priors), len(srcCfgs), len(sizes), len(c08Variants), reps)
+	c.Rule = fmt.Sprintf("full product: %d texts x %d prior contents x %d source configurations x %d history-size settings x %d accept variants x {emacs, vi-insert} x {no AcceptMultiline callback, always-accepting callback (history-size unset/2)}; multi-source cases repeated %d times (map iteration order); reference model per source. non-trivial = distinct cases in which the line was actually recorded in at least one source", len(texts), len(priors), len(srcCfgs), len(sizes), len(c08Variants), reps)
 	c.Bounds = map[string]any{"texts": texts, "priors": priors, "sources": srcCfgs, "history_size": sizes, "variants": len(c08Variants), "repeats_multi_source": reps}
 	c.Assumptions = []string{"history-size 0: both 'unlimited' and 'save nothing' are accepted (statement is silent)", "map-iteration order covered by repetition, not enumeration"}
 
@@ -242,6 +246,10 @@ func runC08(c *Ctx) {
 							for r := 0; r < n; r++ {
 								cases = append(cases, c08Case{text: text, priors: ps, kinds: sc, size: size, variant: v, mode: mode, rep: r})
 							}
+							if !v.multi && (size == "" || size == "2") {
+								// the same with an (always accepting) AcceptMultiline callback installed
+								cases = append(cases, c08Case{text: text, priors: ps, kinds: sc, size: size, variant: v, mode: mode, cb: true})
+							}
 						}
 					}
 				}
@@ -260,7 +268,7 @@ func runC08(c *Ctx) {
 			return
 		}
 		fp, what, recorded := c08Verdict(cs, t)
-		key := fmt.Sprintf("%q|%v|%v|%s|%s|%s", cs.text, cs.priors, cs.kinds, cs.size, cs.variant.name, cs.mode)
+		key := fmt.Sprintf("%q|%v|%v|%s|%s|%s|%v", cs.text, cs.priors, cs.kinds, cs.size, cs.variant.name, cs.mode, cs.cb)
 		if recorded {
 			c.NonTrivial(key)
 		}
@@ -282,7 +290,7 @@ func runC08(c *Ctx) {
 		}
 		jj := *j
 		w := Witness{Fingerprint: fp, What: what, Engine: "session", Job: &jj,
-			Input: jsonRaw(map[string]any{"Text": cs.text, "Priors": cs.priors, "Kinds": cs.kinds, "Size": cs.size, "Variant": cs.variant.name, "Mode": cs.mode})}
+			Input: jsonRaw(map[string]any{"Text": cs.text, "Priors": cs.priors, "Kinds": cs.kinds, "Size": cs.size, "Variant": cs.variant.name, "Mode": cs.mode, "CB": cs.cb})}
 		c.Violate(w, func() string {
 			// order-dependent defects need several tries: any reproduction among 24 counts
 			for k := 0; k < 24; k++ {
